@@ -2,6 +2,7 @@ package grpd
 
 import (
 	"fmt"
+	"runtime/debug"
 	"sort"
 	"strings"
 
@@ -287,6 +288,7 @@ func init() {
 			"TickNow/TickLater requests only perturb the scheduler guard; the statement puts no obligation on them",
 		},
 		Run: func(c *lib.Ctx) {
+			debug.SetGCPercent(1600) // tiny live heap, millions of short cases: fewer GC cycles
 			lib.Cases(c, func(yield func(c12Case) bool) { enumC12(c, yield) }, runC12)
 		},
 		Replay: lib.ReplayCases(runC12),
